@@ -108,6 +108,11 @@ Record creq := { q_ce : list string; q_body : option bytes;
                     receiving side, after the canonical key's values (net/http writes keys sorted) *)
                  q_raw : list string;
                  q_stream : bool;   (* the body is an opaque reader: no length declared (sent chunked) *)
+                 (* HOW the body's Read calls deliver the bytes (0 = all, then (0, EOF); 1 = the last data
+                    TOGETHER with io.EOF; 2 = one byte per call; 3 = short reads with (0, nil) reads in
+                    between; 4 = fixed chunks, the last with EOF): every one is legal for an io.Reader, and
+                    an independent input here — nothing may depend on it *)
+                 q_reads : N;
                  q_rerr : bool;     (* the body's Read fails after delivering the bytes *)
                  q_cerr : bool }.   (* the body's Close fails *)
 (* a request on the wire / as received by the server *)
